@@ -1,6 +1,6 @@
 INFO = {
     "level": "proof",
-    "level_text": "Contracts on the report builders and on the functions that file them, proved from the real bodies for all states: report_pickup_request (vehicle, request, price = request.value, request time; waiting time between zero and timeout + one step and pickup never before departure, for every admitted, not yet cancelled request), report_dropoff_request (vehicle, request, drop-off time), vehicle_charge_event (vehicle, station, plug, energy = level after - level before), driver_schedule_event; pick_up_trip, drop_off_trip, charge and the human driver updates file exactly one report iff the state change is committed and none otherwise (ghost report log threaded through the symbolic execution), with the reported vehicle/request/amount equal to the deltas in the returned state. Station load: construct_station_load_events is proved, for every tuple of reports and every state, to return for each station of the simulation a report whose energy is (the text of) the sum of the energies of exactly that step's charge events at that station (ghost sum `station_load` defined by recursion over the report tuple; fold step contract `_add` adds the event to its own station's entry and touches no other; two inductive fold invariants), and nothing for unknown stations unless a charge event names them.",
+    "level_text": "move() never answers `no change` for an exhausted route, so a default transition that has filed its pickup event is never discarded by step_vehicle afterwards (the event would otherwise be reported for a state change that did not happen, once per step). Contracts on the report builders and on the functions that file them, proved from the real bodies for all states: report_pickup_request (vehicle, request, price = request.value, request time; waiting time between zero and timeout + one step and pickup never before departure, for every admitted, not yet cancelled request), report_dropoff_request (vehicle, request, drop-off time), vehicle_charge_event (vehicle, station, plug, energy = level after - level before), driver_schedule_event; pick_up_trip, drop_off_trip, charge and the human driver updates file exactly one report iff the state change is committed and none otherwise (ghost report log threaded through the symbolic execution), with the reported vehicle/request/amount equal to the deltas in the returned state. Station load: construct_station_load_events is proved, for every tuple of reports and every state, to return for each station of the simulation a report whose energy is (the text of) the sum of the energies of exactly that step's charge events at that station (ghost sum `station_load` defined by recursion over the report tuple; fold step contract `_add` adds the event to its own station's entry and touches no other; two inductive fold invariants), and nothing for unknown stations unless a charge event names them.",
     "level_note": "the sums over a run (move distances = odometer, charge energies = energy gained, summary counts = number of add/cancel events) compose these per-call contracts with lemma L1; vehicle_move_event's field values are assumed (its fold over energy.keys() is out of reach); the stats handlers and the json round trip of the written log are not under contract (mutable objects writing files): a bounded stand-in, labelled bounded and not counted among the discharged obligations, runs the real StatsHandler and EventfulHandler on seeded random report batches and compares counts, distances, parsed-back records and station loads; datetime arithmetic is modelled on seconds of day.",
     "trusted_base": ["Report values are an abstract sort with typed fields per literal key (station_id, energy, energy_units); a charge event carries these keys (vehicle_charge_event's report contract)", "_to_reports: tuple(map(_cast_as_report, acc.keys())) yields one report per accumulator key (assumed: Report construction is not a solver sort)", "str(float) is an uninterpreted injective-free function of the number",
                      "datetime model: a time of day is its seconds since midnight, datetime.combine(date.min, t) differences and timedeltas are whole seconds, timedelta.days = floor(seconds / 86400); time_diff itself is verified from its body over this model (cyclic difference)", "h3.h3_to_geo uninterpreted"],
